@@ -142,7 +142,10 @@ class DaemonFaultFamily(Family):
         async def sleep(t, *a):
             sleeps.append(t)
             return await asyncio.sleep(t, *a)
-        ns = types.SimpleNamespace(sleep=sleep)
+        class _AsyncioShim(types.SimpleNamespace):
+            def __getattr__(self, name):        # everything but sleep is the real module's
+                return getattr(asyncio, name)
+        ns = _AsyncioShim(sleep=sleep)
         ns.Semaphore, ns.TimeoutError = asyncio.Semaphore, asyncio.TimeoutError
         old_async, old_aio = dmod.asyncio, dmod.aiohttp
         dmod.asyncio = ns
